@@ -984,6 +984,15 @@ def model_call(interp, st, term, argvals):
                     return None
                 return rv if res.endswith("and_then") else Some(rv)
         return None
+    if res in ("core::num::is_negative", "core::num::is_positive", "core::num::signum"):
+        if a and a[0][0] == "int":
+            n = a[0][1]
+            if res.endswith("is_negative"):
+                return Bool(n < 0)
+            if res.endswith("is_positive"):
+                return Bool(n > 0)
+            return Int((n > 0) - (n < 0))
+        return None
     if res in ("std::option::Option::unwrap_or", "std::option::Option::unwrap_or_default"):
         if a and a[0][0] == "agg" and a[0][1] == OPTION:
             if a[0][2] == 1:
